@@ -2,6 +2,7 @@
 """C20 - event emitter.  MC of spec/Emitter (reference and mechanism variant), replay of
 TLC's behaviours on the real hotxlfp.Emitter / hotxlfp.Parser, random longer behaviours,
 all call logs validated by TLC against Trace_C20."""
+import functools
 import json
 import os
 import random
@@ -24,6 +25,10 @@ class Host(object):
 
     def handle(self, *args, **kw):
         return self.fn(*args, **kw)
+
+
+def _undecorated(*args, **kw):
+    return None
 
 
 CTXKEYS = ['c', 'self', 'name', 'callback', 'fn', 'event', 'args', 'ctx']     # a context may use any key
@@ -59,8 +64,14 @@ class Recorder(object):
             if self.cbkind == 'method':
                 # a host object's method: every access builds a new bound-method object, equal to the others
                 self.cbs[c] = Host(callback)
+            elif self.cbkind == 'wrapped':
+                # decorated callbacks: they all carry a __wrapped__ attribute pointing at one and the same plain function
+                self.cbs[c] = functools.wraps(_undecorated)(callback)
             else:
                 self.cbs[c] = callback
+        if self.cbkind == 'unretained':
+            # a method of an object nobody but the emitter refers to (e.on(name, Sheet().cell)): still a subscription
+            return Host(self.cbs[c]).handle
         return self.cbs[c].handle if self.cbkind == 'method' else self.cbs[c]
 
     def log(self, e):
@@ -86,7 +97,7 @@ class Recorder(object):
             f = em.on if k == 'on' else em.once
             if o['x']:
                 # (a bound method cannot be handed a context key named like its own receiver parameter)
-                keys = CTXKEYS if self.cbkind != 'method' else [k for k in CTXKEYS if k != 'self']
+                keys = CTXKEYS if self.cbkind not in ('method', 'unretained') else [k for k in CTXKEYS if k != 'self']
                 f(n, self.cb(o['cb']), {keys[(o['cb'] + o['x'][0]) % len(keys)]: o['x'][0]})
             else:
                 f(n, self.cb(o['cb']))
@@ -142,8 +153,11 @@ def random_case(rng, target):
     for c in rng.sample(cbs, rng.randint(0, 3)):
         script[str(c)] = [op(True) for _ in range(rng.randint(1, 2))]
     hist = [op(False) for _ in range(rng.randint(3, 40))]
-    return {'hist': hist, 'script': script, 'max_depth': rng.choice([1, 2, 2, 3]), 'target': target,
-            'cbkind': rng.choice(['closure', 'closure', 'method'])}
+    kind = rng.choice(['closure', 'closure', 'method', 'wrapped', 'unretained'])
+    if kind == 'unretained':      # (there is no second reference to unsubscribe with)
+        hist = [o for o in hist if o['k'] != 'offcb']
+        script = {k: [o for o in v if o['k'] != 'offcb'] for k, v in script.items()}
+    return {'hist': hist, 'script': script, 'max_depth': rng.choice([1, 2, 2, 3]), 'target': target, 'cbkind': kind}
 
 
 def relevant(case):
@@ -255,6 +269,8 @@ def main(tier, replay=None):
     for i, c in enumerate(cases):
         if i % 3 == 2:      # callbacks that are bound methods of host objects (equal, not identical, from access to access)
             c['cbkind'] = 'method'
+        elif i % 6 == 1:
+            c['cbkind'] = 'wrapped'
     CH = 20000
     for i in range(0, len(cases), CH):
         validate(run, cases[i:i + CH], 's2c%d' % (i // CH))
